@@ -89,8 +89,9 @@ func caseOptions(c Case) []autog.Option {
 
 func sizeMap(c Case) map[string]graph.Size {
 	m := map[string]graph.Size{}
+	// graph.Size also has X and Y: whatever a caller leaves in them must not reach the layout
 	for k, v := range c.Sizes {
-		m[k] = graph.Size{W: v[0], H: v[1]}
+		m[k] = graph.Size{X: -50 - v[0], Y: -70, W: v[0], H: v[1]}
 	}
 	return m
 }
